@@ -115,8 +115,10 @@ type vend struct {
 	// waiting for the peer (like channel.Direct)
 	closeIn bool
 	scratch []byte // frame under construction (see Send)
-	midSend func(b []byte)
-	midClose func()
+	// onSendFail is told the message whose (injected) Send failure was reported to the library
+	onSendFail func([]byte)
+	midSend    func(b []byte)
+	midClose   func()
 }
 
 // validRecord: one complete JSON-RPC message: an object, or a non-empty array of objects.
@@ -175,6 +177,9 @@ func (e *vend) Send(b []byte) error {
 	}
 	if e.st.sendErr != nil {
 		if err := e.st.sendErr(n); err != nil {
+			if e.onSendFail != nil {
+				e.onSendFail(b)
+			}
 			return err
 		}
 	}
